@@ -165,6 +165,18 @@ CHECKS.update({
             "DESIGN.md section 4 C20"),
 })
 
+CHECKS.update({
+    "C17": ("Hypothesis PBT over (parameter set, fold grouping, reset history): generated shapes / dtypes / initialisers "
+            "incl. every Dirichlet axis; oracle = exact predicates on the slice of each symbolic tensor (constants copied, "
+            "sum-to-one along the declared axis, bounds, dtype, requires_grad) plus pooled moment tests",
+            "Exploration: thousands of generated parameter sets per run, compiled unfolded and folded (bare parameter "
+            "graphs and circuits), checked after compilation and after up to three resets; exact predicates carry the "
+            "weight, moment tests (|z| > 7) are secondary; rank <= 3, dims <= 5, <= 5 parameters.",
+            "Trusted: numpy predicates in vlib/props/C17.py; folding of bare parameters through the private helper "
+            "_fold_parameters.",
+            "DESIGN.md section 4 C17"),
+})
+
 NOT_APPLICABLE = {}
 
 
